@@ -506,7 +506,8 @@ def _check(machine, tier, seed, log=print):
     log(f"[{machine.pid}] tier={tier} VERIF_SEED={seed} runs<={nruns} "
         f"budget={budget:.0f}s procs={nproc}")
     errors = []
-    outdir = os.path.join(VERIF, 'out', machine.pid)
+    outdir = os.path.join(os.environ.get('VERIF_OUT_DIR') or
+                          os.path.join(VERIF, 'out'), machine.pid)
     crash_lines = []
     # canary: the warm-up (a few plain solver calls) in a child, so that a
     # change that crashes compiled kernels does not take the check down
@@ -629,7 +630,9 @@ def _check(machine, tier, seed, log=print):
         errors += perrs
     extra['known_findings_matched'] = sorted(known_hit)
     extra['determinism'] = {'runs_executed_twice': plan.get('det_runs', 3)}
-    epath = os.path.join(VERIF, 'evidence', f'{machine.pid}.json')
+    epath = os.path.join(os.environ.get('VERIF_EVIDENCE_DIR') or
+                         os.path.join(VERIF, 'evidence'),
+                         f'{machine.pid}.json')
     doc = write_evidence(machine, tier, seed, results, errors,
                          time.time() - t0, extra, nviol, epath)
     val = validate_evidence(epath)
